@@ -64,6 +64,8 @@ impl<F: RedisClientFactory> ReplicatorManager<F> {
         }
 
         let force = flags.force;
+        #[cfg(undermoon_verif)]
+        crate::common::verif_hook::point("repl.updating_load");
         if !force && self.updating_epoch.load(atomic::Ordering::SeqCst) >= epoch {
             return Err(ClusterMetaError::OldEpoch);
         }
@@ -72,6 +74,8 @@ impl<F: RedisClientFactory> ReplicatorManager<F> {
         // Set epoch first to let later requests fail fast.
         // We can't update the epoch inside the lock here.
         // Because when we get the info inside it, it may be partially updated and inconsistent.
+        #[cfg(undermoon_verif)]
+        crate::common::verif_hook::point("repl.updating_store");
         self.updating_epoch.store(epoch, atomic::Ordering::SeqCst);
         // After this, other threads might accidentally change `updating_epoch` to a lower epoch,
         // we will correct his later.
@@ -93,6 +97,8 @@ impl<F: RedisClientFactory> ReplicatorManager<F> {
 
         let mut new_replicators = HashMap::new();
         // Add existing replicators
+        #[cfg(undermoon_verif)]
+        crate::common::verif_hook::point("repl.read_lock");
         for (key, (replicator, handle)) in self.replicators.read().1.iter() {
             if Some(true)
                 == master_key_set
@@ -141,6 +147,8 @@ impl<F: RedisClientFactory> ReplicatorManager<F> {
         }
 
         {
+            #[cfg(undermoon_verif)]
+            crate::common::verif_hook::point("repl.write_lock");
             let mut replicators = self.replicators.write();
             if !force && epoch <= replicators.0 {
                 // We're fooled by the `updating_epoch`, update it.
